@@ -14,6 +14,7 @@ import (
 	"fmt"
 	"io"
 	"log/slog"
+	"math/big"
 	"net/http"
 	"net/url"
 	"os"
@@ -320,17 +321,26 @@ func (rs *runState) describeValue(b []byte) string {
 	if i := bytes.IndexByte(b, '\n'); i > 0 {
 		meta := strings.Split(strings.TrimSpace(string(b[:i])), "\t")
 		if len(meta) == 3 {
-			t1, e1 := time.Parse(time.RFC3339Nano, meta[1])
-			t2, e2 := time.Parse(time.RFC3339Nano, meta[2])
+			// like ParseResponse, an unparsable timestamp is the zero time (year 1), not an error
+			tns := func(s string) string {
+				t, err := time.Parse(time.RFC3339Nano, s)
+				if err != nil || t.Year() < 1700 || t.Year() > 2250 {
+					if err != nil || t.IsZero() {
+						return "-62135596800000000000"
+					}
+					return new(big.Int).Add(new(big.Int).Mul(big.NewInt(t.Unix()), big.NewInt(1_000_000_000)), big.NewInt(int64(t.Nanosecond()))).String()
+				}
+				return itoa(t.UnixNano())
+			}
 			resp, err := http.ReadResponse(bufio.NewReader(bytes.NewReader(b[i+1:])), nil)
-			if e1 == nil && e2 == nil && err == nil {
+			if err == nil {
 				body, berr := io.ReadAll(resp.Body)
 				be := "ok"
 				if berr != nil {
 					be = "bodyerr"
 				}
 				rs.noteDates(resp.Header)
-				return "ent\t" + hx(meta[0]) + "\t" + itoa(t1.UnixNano()) + "\t" + itoa(t2.UnixNano()) + "\t" +
+				return "ent\t" + hx(meta[0]) + "\t" + tns(meta[1]) + "\t" + tns(meta[2]) + "\t" +
 					strconv.Itoa(resp.StatusCode) + "\t" + encHeader(resp.Header) + "\t" + hx(string(body)) + "\t" + be
 			}
 		}
@@ -364,6 +374,18 @@ func (c *recConn) Get(key string) ([]byte, error) {
 		err = errors.Join(driver.ErrNotExist, errFault)
 	case f != nil && f.Kind == "bytes":
 		b, _ = hex.DecodeString(f.Bytes)
+	case f != nil && (f.Kind == "trunc" || f.Kind == "flip"):
+		b, err = c.rs.inner.Get(key)
+		if err == nil {
+			k, _ := strconv.Atoi(f.Bytes)
+			if f.Kind == "trunc" {
+				if k < len(b) {
+					b = b[:k]
+				}
+			} else if len(b) > 0 {
+				b[k%len(b)] ^= 0x20
+			}
+		}
 	default:
 		b, err = c.rs.inner.Get(key)
 	}
@@ -461,11 +483,17 @@ func snap(r *http.Request) reqSnap { return reqSnap{r.Method, r.URL.String(), en
 // urlGlue: results of the stdlib calls makeURLKey relies on (url.Parse and
 // ResolveReference), computed here with the standard library only.
 func urlGlue(u *url.URL) string {
-	base, err := url.Parse(u.Scheme + "://" + u.Host)
-	if err != nil || base == nil {
+	// exactly the two stdlib calls of makeURLKey, error ignored as there (a nil base is fine
+	// for a reference that has a scheme)
+	base, _ := url.Parse(u.Scheme + "://" + u.Host)
+	var nz *url.URL
+	func() {
+		defer func() { _ = recover() }()
+		nz = base.ResolveReference(u)
+	}()
+	if nz == nil {
 		return "bad\t-\t-\t-\t-\t-"
 	}
-	nz := base.ResolveReference(u)
 	return "ok\t" + hx(nz.Scheme) + "\t" + hx(nz.Host) + "\t" + hx(nz.EscapedPath()) + "\t" + hx(nz.RawQuery) + "\t" + hx(u.Opaque)
 }
 
